@@ -23,6 +23,7 @@ import c06gen  # noqa
 
 PROP = 'C06'
 CHECK = 'totalfn.check'
+PAR = int(os.environ.get('C06_PAR', vlib.NPROC))   # worker processes (soaking on a loaded host)
 TL = 20          # CPU seconds per configuration (+ len(text)/200)
 OPS = ['^', '+', '-', '*', '/', '\\', 'mod', 'and', 'or', 'xor', 'eqv', 'imp',
        '=', '<>', '<', '>', '<=', '>=', '><', '=<', '=>', 'not', '?']
@@ -88,7 +89,7 @@ def signatures(case, r):
 
 def run_check(srcs, full=True, fam='replay'):
     cases = [{'src': s, 'full': full, 'tl': TL} for s in srcs]
-    res = vlib.run_impl(CHECK, cases, timeout=3600)
+    res = vlib.run_impl(CHECK, cases, timeout=3600, par=PAR)
     # a dead worker loses the rest of its chunk: run those one by one
     for i, r in enumerate(res):
         if isinstance(r, dict) and r.get('harness'):
@@ -340,10 +341,11 @@ def run_stream(ctx, fams, budget):
     t0 = time.time()
     truncated = {}
     first = {}       # signature -> first failing case
-    BATCH = 400
+    skip = json.loads(os.environ.get('C06_SKIP', '{}'))   # soak only: resume after an interruption
+    BATCH = 25 * PAR
     log = open(os.environ['C06_LOG'], 'a') if os.environ.get('C06_LOG') else None
     # round-robin over the families so that a budget cut keeps every family represented
-    pos = {name: 0 for name, _ in fams}
+    pos = {name: int(skip.get(name, 0)) for name, _ in fams}
     live = True
     while live:
         live = False
@@ -449,10 +451,13 @@ def main(tier, seed):
         'budget may cut the tail (recorded in stream_not_run_budget).')
     ctx.rule.append(
         'configurations: every text is compiled at -O0 without -g first; when nothing failed inside '
-        'parse_string the other five configurations (levels 0,1,2 x debug off/on) follow, each with '
-        'bytes(code) and str(code); a text rejected by the parse stage is run once (level and debug '
-        'cannot matter before parsing ends). evaluations = compile runs; non-trivial = distinct '
-        '(family, construct class)')
+        'parse_string / tree.bind / Pass1-3 (the steps of Compiler.compile that never read the level '
+        'or the debug flag) the other five configurations (levels 0,1,2 x debug off/on) follow, each '
+        'with bytes(code) and str(code); a text that fails in those front steps is run once (its '
+        'outcome is the same in all six configurations). evaluations = compile runs; non-trivial = '
+        'distinct (family, construct class). A signature is <what escaped>@<construct the input was '
+        'generated from>, so a known finding covers its failure only in the constructs where it is '
+        'known.')
     # minimal witness for every new failure class
     for sig, c in ([] if os.environ.get('C06_NOSHRINK') else list(first.items())[:8]):
         try:
